@@ -9,13 +9,13 @@ ID = 'C14'
 LEVEL = 'exploration'
 BUDGET = {'quick': (60000, 80.0), 'thorough': (800000, 1500.0)}
 RULE = ('J1939-21: a requester stack (CA operational or without an address) and 1-2 responder stacks holding 1-3 CAs in the claim states operational (bypassed or '
-        'really claimed), not started, waiting for veto and cannot-claim (reached by real claim histories with a scripted contender); send_request(0, pgn, dest) '
+        'really claimed), moved to the next address after losing the preferred one, not started, waiting for veto and cannot-claim (reached by real claim histories with a scripted contender); the requester in any of these states; send_request(0, pgn, dest) '
         'for PGN boundary values and random 18-bit values incl. the address-claim PGN, every destination class (owned, global, unowned, 254, own). '
         'non-trivial = at least one responder CA was operational and one was not; distinct = distinct scenario JSON')
-REQUIRED_PROBES = ['requests', 'claim_requests', 'callbacks', 'claim_answers', 'requests_from_254', 'global_requests', 'unowned_requests']
+REQUIRED_PROBES = ['requests', 'claim_requests', 'callbacks', 'claim_answers', 'requests_from_254', 'global_requests', 'unowned_requests', 'moved_cas_operational']
 ASSUMPTIONS = ['send_request is called with data_page=0 (the statement omits the argument; data_page=1 puts the request on PGN 0x1EA00, which is not the Request PGN); '
                'the data-page bit of the *requested* PGN is varied instead']
-PGNS = [0, 0xFF, 0xEA00, 0xEE00, 0xEE00, 0xEE00, 0xFECA, 0xFFFF, 0x10000, 0x1FFFF, 0x20000, 0x3FFFF, 0xD300]
+PGNS = [0, 0xFF, 0xEA00, 0xEE00, 0xEE00, 0xEE00, 0xEE00, 0xFECA, 0xFFFF, 0x10000, 0x1FFFF, 0x20000, 0x3FFFF, 0xD300, 0xEE01, 0xEEFF, 0xEDFF, 0xEF00, 0x1EE00, 0x2EE00, 0x3EE00, 0x2EEFF]
 STATE = {0: 'NONE', 1: 'WAIT_VETO', 2: 'NORMAL', 3: 'CANNOT_CLAIM'}
 X_ADDR = 0x7E
 
@@ -23,30 +23,34 @@ X_ADDR = 0x7E
 def generate(rng, tier, i):
     nresp = rng.choice([1, 2])
     used = {X_ADDR}
+    moved_from = set()
     stacks = []
-    kinds = ['normal', 'normal', 'none', 'veto', 'cannot', 'claimed']
+    kinds = ['normal', 'normal', 'none', 'veto', 'cannot', 'claimed', 'moved', 'moved']
 
     def mk_ca(kind):
         while True:
-            a = rng.randrange(130, 240) if kind in ('veto', 'cannot') else (rng.randrange(0, 120) if kind == 'claimed' else rng.choice([rng.randrange(0, 254), 0, 253, 128]))
-            if a not in used:
+            a = rng.randrange(130, 240) if kind in ('veto', 'cannot') else (rng.randrange(0, 120) if kind in ('claimed', 'moved') else rng.choice([rng.randrange(0, 254), 0, 253, 128]))
+            if a not in used and not (kind == 'moved' and (a + 1) in used) and not ((a - 1) in moved_from):
                 used.add(a)
+                if kind == 'moved':
+                    used.add(a + 1)
+                    moved_from.add(a)
                 break
-        aac = 0 if kind == 'cannot' else rng.getrandbits(1)
+        aac = 0 if kind == 'cannot' else (1 if kind == 'moved' else rng.getrandbits(1))
         name = ((rng.getrandbits(62) | (1 << 41)) & ~(1 << 48)) | (aac << 63)
         return {'addr': a, 'name': name, 'bypass': kind == 'normal', 'kind': kind}
-    q_kind = rng.choice(['normal', 'normal', 'normal', 'none'])
+    q_kind = rng.choice(['normal', 'normal', 'normal', 'none', 'cannot', 'veto', 'moved'])
     stacks.append({'name': 'Q', 'dll': 'j1939-21', 'max_cmdt': 1, 'cas': [mk_ca(q_kind)] + ([mk_ca('normal')] if rng.random() < 0.3 else [])})
     for k in range(nresp):
         stacks.append({'name': 'R%d' % k, 'dll': 'j1939-21', 'max_cmdt': 1, 'cas': [mk_ca(rng.choice(kinds)) for _ in range(rng.randint(1, 3))],
                        'ecu_listeners': rng.choice([[], [], [None]])})
     scn = {'kernel': gen.draw_kernel(rng), 'latency': gen.draw_latency(rng, True, [s['name'] for s in stacks]), 'stacks': stacks}
     reqs = []
-    owned = [c['addr'] for s in stacks[1:] for c in s['cas']]
+    owned = [c['addr'] + (1 if c['kind'] == 'moved' else 0) for s in stacks[1:] for c in s['cas']] + [c['addr'] for s in stacks[1:] for c in s['cas'] if c['kind'] == 'moved']
     for ri in range(rng.randint(1, 5)):
         dest = rng.choice(owned + owned + [255, 255, 254, rng.randrange(0, 254), stacks[0]['cas'][0]['addr']])
         pgn = rng.choice(PGNS) if rng.random() < 0.7 else rng.getrandbits(18)
-        reqs.append({'at_ms': 150 + 17 * ri + rng.randint(0, 3), 'pgn': pgn, 'dest': dest})
+        reqs.append({'at_ms': 700 + 17 * ri + rng.randint(0, 3), 'pgn': pgn, 'dest': dest})
     scn['requests'] = sorted(reqs, key=lambda r: r['at_ms'])
     return scn
 
@@ -68,9 +72,10 @@ def execute(scn, keep_log=False, hook=None):
             ca = st.cas[k]
             allcas.append((s['name'], k, c, ca))
             ca.subscribe_request(lambda src, dest, pgn, key=(s['name'], k): calls.append((key[0], key[1], src, dest, pgn)))
-            if c['kind'] in ('veto', 'cannot', 'claimed'):
-                sim.at(base + 100_000_000 if c['kind'] == 'veto' else base, (lambda ca=ca: ca.start(0)), 'op')
-            if c['kind'] == 'cannot':
+            if c['kind'] in ('veto', 'cannot', 'claimed', 'moved'):
+                sim.at(base + 600_000_000 if c['kind'] == 'veto' else base, (lambda ca=ca: ca.start(0)), 'op')
+            if c['kind'] in ('cannot', 'moved'):
+                # a contender with a lower NAME takes the address: a fixed CA ends cannot-claim, an arbitrary-address-capable one moves on
                 nv = (c['name'] & ((1 << 63) - 1)) >> 1
                 sim.at(base + 60_000_000, (lambda a=c['addr'], nv=nv: bus.send('X', rc.make_id(6, 0, rc.PF_ADDRESS_CLAIM, 255, a), True, nv.to_bytes(8, 'little'))), 'op')
     q = w.stacks['Q'].cas[0]
@@ -90,13 +95,15 @@ def execute(scn, keep_log=False, hook=None):
             if op and (r['dest'] == 255 or r['dest'] == ca.device_address):
                 expect.append((sname, k, ca.device_address, c['name']))
         q_op = q.state == 2
+        stats['moved_cas_operational'] += sum(1 for (sn, k, c, ca) in allcas if c['kind'] == 'moved' and ca.state == 2 and ca.device_address == c['addr'] + 1)
         src = q.device_address if q_op else 254
         is_claim = r['pgn'] == 0xEE00
         try:
             q.send_request(0, r['pgn'], r['dest'])
-        except RuntimeError:
+        except Exception as e:      # noqa
             if q_op or is_claim:
-                viol.append({'clause': 'request-raised', 'rank': 2, 'msg': 'send_request raised for an %s requester, pgn %05X' % ('operational' if q_op else 'address-less', r['pgn'])})
+                viol.append({'clause': 'request-raised', 'rank': 2, 'feat': {'claim': is_claim, 'requester': STATE.get(q.state)},
+                             'msg': 'send_request raised %r for an %s requester (%s), pgn %05X' % (e, 'operational' if q_op else 'address-less', STATE.get(q.state), r['pgn'])})
             return
         if not q_op and not is_claim:
             viol.append({'clause': 'request-not-refused', 'rank': 2, 'msg': 'address-less requester could send a request for pgn %05X' % r['pgn']})
@@ -140,7 +147,7 @@ def execute(scn, keep_log=False, hook=None):
                 viol.append({'clause': 'unexpected-claim-frame', 'rank': 2, 'msg': 'address-claimed frames %s in reply to a request for %05X' % (answers, r['pgn'])})
     for r in scn['requests']:
         sim.at(base + r['at_ms'] * 1_000_000, (lambda r=r: request(r)), 'op')
-    sim.run_until(base + 300_000_000)
+    sim.run_until(base + 900_000_000)
     viol += common.thread_violations(w)
     res = {'violations': viol[:5], 'stats': dict(stats, frames=len(bus.frames)), 'nontrivial': mixed[0] and mixed[1], 'digest': sim.digest(),
            'sim_s': (sim.now - t0) / 1e9,
